@@ -10,7 +10,7 @@ from typedpy.structures import (
     Structure,
     TypedField,
 )
-from .fields import _map_to_field
+from .fields import _map_to_field, _named_copy
 
 
 class _JSONSchemaDraft4ReuseMeta(FieldMeta):
@@ -101,8 +101,9 @@ class AllOf(MultiFieldWrapper, Field, metaclass=_JSONSchemaDraft4ReuseMeta):
 
     def __set__(self, instance, value):
         for field in self.get_fields():
-            setattr(field, "_name", self._name)
-            field.__set__(_scratch_instance(instance), value)
+            option = _named_copy(field, self._name)
+            setattr(field, "_name", option._name)
+            option.__set__(_scratch_instance(instance), value)
         super().__set__(instance, _private_copy(instance, value))
 
     def __str__(self):
@@ -157,10 +158,11 @@ class AnyOf(MultiFieldWrapper, Field, metaclass=_JSONSchemaDraft4ReuseMeta):
             return
         matched = None
         for field in self.get_fields():
-            setattr(field, "_name", self._name)
+            option = _named_copy(field, self._name)
+            setattr(field, "_name", option._name)
             try:
-                field.__set__(_scratch_instance(instance), value)
-                matched = field
+                option.__set__(_scratch_instance(instance), value)
+                matched = option
                 break
             except TypeError:
                 pass
@@ -190,9 +192,8 @@ class AnyOf(MultiFieldWrapper, Field, metaclass=_JSONSchemaDraft4ReuseMeta):
             # several types: hand the value to the option that takes it (Boolean/Enum.serialize given a
             # collection of another option would return the live collection itself)
             for field in options:
-                setattr(field, "_name", self._name)
                 try:
-                    field.__set__(_scratch_instance(None), value)
+                    _named_copy(field, self._name).__set__(_scratch_instance(None), value)
                 except (TypeError, ValueError):
                     continue
                 return field.serialize(value)
@@ -221,9 +222,10 @@ class OneOf(MultiFieldWrapper, Field, metaclass=_JSONSchemaDraft4ReuseMeta):
     def __set__(self, instance, value):
         matched = 0
         for field in self.get_fields():
-            setattr(field, "_name", self._name)
+            option = _named_copy(field, self._name)
+            setattr(field, "_name", option._name)
             try:
-                field.__set__(_scratch_instance(instance), value)
+                option.__set__(_scratch_instance(instance), value)
                 matched += 1
             except TypeError:
                 pass
@@ -272,9 +274,10 @@ class NotField(MultiFieldWrapper, Field, metaclass=_JSONSchemaDraft4ReuseMeta):
 
     def __set__(self, instance, value):
         for field in self.get_fields():
-            setattr(field, "_name", self._name)
+            option = _named_copy(field, self._name)
+            setattr(field, "_name", option._name)
             try:
-                field.__set__(_scratch_instance(instance), value)
+                option.__set__(_scratch_instance(instance), value)
             except TypeError:
                 pass
             except ValueError:
